@@ -91,6 +91,13 @@ class LinearOperator(CalculusFunction):
 # ...
 
 # ...
+def _first_component(u):
+    """the single component of a 1D vector, which may be given as a 1x1 matrix,
+    a 1-tuple or directly as a scalar expression (a 1D gradient is a scalar)"""
+    if isinstance(u, (Matrix, ImmutableDenseMatrix, Tuple, list, tuple)):
+        return u[0]
+    return u
+
 def _is_matrix_vector(u, v):
     """True if u is a (square) matrix and v a column vector of matching size"""
     _mat = (Matrix, ImmutableDenseMatrix)
@@ -130,7 +137,7 @@ class Dot_1d(DotBasic):
         u = _args[0]
         v = _args[1]
 
-        return u[0] * v[0]
+        return _first_component(u) * _first_component(v)
 
 class Dot_2d(DotBasic):
 
@@ -300,7 +307,7 @@ class Inner_1d(InnerBasic):
         u = _args[0]
         v = _args[1]
 
-        return u[0] * v[0]
+        return _first_component(u) * _first_component(v)
 
 class Inner_2d(InnerBasic):
 
